@@ -6,7 +6,7 @@
 //! their builds, and written buffers are re-validated as UTF-8.
 
 use crate::ctx::Ctx;
-use crate::{p_filters, p_score, p_sentence};
+use crate::{p_filters, p_history, p_score, p_sentence};
 
 pub fn run_c18u(ctx: &mut Ctx, from: u64, to: u64, tiny: bool) {
     ctx.safety_only = true;
@@ -50,6 +50,9 @@ pub fn run_c18u(ctx: &mut Ctx, from: u64, to: u64, tiny: bool) {
         p_sentence::run_c04(ctx, a, b);
         ctx.begin_case(k);
         p_sentence::run_c05r(ctx, a, b);
+        ctx.begin_case(k);
+        // boundary / tag states reachable through histories of public API calls
+        p_history::run_c08(ctx, k * 4, k * 4 + 4);
         ctx.begin_case(k);
         ctx.count("unsafe_surface_rounds", 1);
     }
